@@ -28,8 +28,9 @@ TECHNIQUE = ('property-based testing (Hypothesis) plus an exhaustive '
              'calibration against hand-written reference build files')
 RULE = ('Path components over printable ASCII incl. space and \' " $ # % & ( '
         ') * ? [ ] : , @ ! + ~ { } ; = | < > ^ ` (no / or \\, no leading '
-        'one-letter-plus-colon, not . or ..), length 1-6, in thirteen roles '
+        'one-letter-plus-colon, not . or ..), length 1-6, in fourteen roles '
         '(source, header, exe/build_step/two-output build_step/copy_file output, '
+        '120 copy_file outputs at once, '
         'output directory, '
         'submodule directory, find_files hit, walked directory with and '
         'without a hit, include '
@@ -49,7 +50,8 @@ LEVEL_NOTE = ('Trusted: GNU Make 4.3, the reference Ninja evaluator (not '
               'hand-written reference build files of this module.')
 ASSUMPTIONS = ['the header role additionally excludes " (C include syntax)']
 
-ROLES = ['source', 'header', 'exe', 'step', 'multistep', 'copy', 'outdir',
+ROLES = ['source', 'header', 'exe', 'step', 'multistep', 'copy', 'bulk',
+         'outdir',
          'submodule',
          'findfile', 'finddir', 'walkdir', 'incdir', 'gincdir']
 SAFE = set(string.ascii_letters + string.digits + '_.-')
@@ -221,6 +223,15 @@ def render(role, n, src):
         w(os.path.join(src, 'build.bfg'),
           "o = copy_file({!r}, 'in.dat')\ndefault(o)\n".format(n + '.dat'))
         return [('B', n + '.dat')], ('S', 'in.dat'), [('B', n + '.dat')]
+    if role == 'bulk':
+        # many outputs with the name (anything that treats long lists of
+        # files differently from short ones)
+        w(os.path.join(src, 'in.dat'), 'x\n')
+        w(os.path.join(src, 'build.bfg'),
+          "default(*[copy_file({!r} + str(i) + '.dat', 'in.dat') "
+          "for i in range(120)])\n".format(n + '_'))
+        outs = [('B', '{}_{}.dat'.format(n, i)) for i in range(120)]
+        return outs, ('S', 'in.dat'), outs[:3] + outs[-3:]
     if role == 'outdir':
         w(os.path.join(src, 'main.c'), main7)
         w(os.path.join(src, 'build.bfg'),
